@@ -1093,6 +1093,9 @@ func exec(line string) zv.Out {
 	if f[1] == "hs" {
 		return execHS(f)
 	}
+	if f[1] == "hsj" {
+		return execJunk(f)
+	}
 	return execMsg(f)
 }
 
